@@ -406,9 +406,37 @@ def codec_special(_):
     for pts in (0, 1, 2 ** 33 - 1):
         cases.append(('time_signal', dict(time_signal={'pts': pts})))
     cases.append(('splice_null', dict()))
+    # every segmentation type id (the sub-segment bytes exist for 0x34, 0x36, 0x38, 0x3A only), with and without a
+    # duration, delivery restrictions, a upid of each length class
+    from dashlive.scte35 import descriptors
+    for typ in range(256):
+        for variant in range(4):
+            dkw = dict(segmentation_event_id=7 + typ, segmentation_type=typ, segment_num=3, segments_expected=9,
+                       segmentation_duration=[None, 0, 900000, 2 ** 40 - 1][variant])
+            if typ in (0x34, 0x36, 0x38, 0x3A):
+                dkw.update(sub_segment_num=[1, 0, 255, 2][variant], sub_segments_expected=[2, 0, 255, 9][variant])
+            if variant == 1:
+                dkw.update(delivery_not_restricted_flag=False, web_delivery_allowed_flag=False, no_regional_blackout_flag=True,
+                           archive_allowed_flag=False, device_restrictions=2)
+            if variant >= 2:
+                dkw.update(segmentation_upid_type=[0, 0, 0x09, 0x0C][variant], segmentation_upid=[None, None, b'ADI:x.y/z', bytes(range(200))][variant])
+            cases.append((f'segmentation-type-{typ:#04x}-v{variant}',
+                          dict(time_signal={'pts': 90000 + typ}, descriptors=[('seg', dkw)])))
+    # component mode (program_segmentation_flag = 0): 0, 1 and 2 components
+    for ncomp in (0, 1, 2):
+        comps = [{'component_tag': 1, 'pts_offset': 90000}, {'component_tag': 255, 'pts_offset': 2 ** 33 - 1}][:ncomp]
+        cases.append((f'segmentation-components-{ncomp}',
+                      dict(time_signal={'pts': 5}, descriptors=[('seg', dict(segmentation_event_id=9, segmentation_type=0x30,
+                                                                         program_segmentation_flag=False, components=comps))])))
     for name, kw in cases:
         acc.count('evaluations')
         rec = {'kind': 'codec-special', 'case': name}
+        if kw.get('descriptors'):
+            try:
+                kw = dict(kw, descriptors=[descriptors.SegmentationDescriptor(**d) for _, d in kw['descriptors']])
+            except Exception as e:
+                acc.outcome(('descriptor-refused', type(e).__name__))
+                continue
         try:
             data = bytes(BinarySignal(**kw).encode())
         except Exception as e:
